@@ -1,0 +1,37 @@
+//go:build verif
+
+package aggsender
+
+import (
+	"context"
+	"errors"
+	"time"
+)
+
+// This file only exists under the `verif` build tag. It exposes single-step entry points of the
+// send loop for the external verification harness: the loop body itself is the real code.
+
+// VerifStartup runs the prologue of Start (DB compatibility check, start-up reconciliation with the
+// Agglayer, flow initial check) bounded by ctx, and reports the reconciliation outcome.
+func (a *AggSender) VerifStartup(ctx context.Context) error {
+	a.checkDBCompatibility(ctx)
+	a.certStatusChecker.CheckInitialStatus(ctx, a.cfg.DelayBetweenRetries.Duration, a.status)
+	if a.status.LastError != "" {
+		return errors.New(a.status.LastError)
+	}
+	return a.flow.CheckInitialStatus(ctx)
+}
+
+// VerifStep runs exactly one iteration of the real sendCertificates loop: an epoch tick (the epoch
+// notifier must have one event ready) or a status-check tick.
+func (a *AggSender) VerifStep(ctx context.Context, epochTick bool) {
+	if epochTick {
+		a.cfg.CheckStatusCertificateInterval.Duration = 0
+	} else {
+		a.cfg.CheckStatusCertificateInterval.Duration = time.Millisecond
+	}
+	a.sendCertificates(ctx, 1)
+}
+
+// VerifLastError returns the last error recorded in the aggsender status.
+func (a *AggSender) VerifLastError() string { return a.status.LastError }
